@@ -124,17 +124,107 @@ Definition unseal_ca_old (c : cfg) (s : state) (p : bs) : state * bool :=
     end.
 
 (* ------------------------------------------------------------------ secretInjectorHandler *)
-Record inj := { i_tls : bool; i_chain : bool; i_field : option bs }.
+(* What the handler sees of the connection is http.Request.TLS: nil (plain HTTP), or a
+   tls.ConnectionState of which it reads two fields:
+     PeerCertificates  the certificates the client PRESENTED during the handshake (whether or not anybody
+                       verified them: with ClientAuth = RequestClientCert / RequireAnyClientCert the
+                       handshake accepts any certificate, self-signed, of an unknown CA, expired),
+     VerifiedChains    the chains crypto/tls BUILT from the presented leaf to a certificate of
+                       Config.ClientCAs (only with VerifyClientCertIfGiven / RequireAndVerifyClientCert;
+                       empty otherwise).
+   Certificates are names (N); the handler never looks inside one except for the subject of
+   VerifiedChains[0][0], which it logs. *)
+Notation certid := N (only parsing).
+Record connstate := { peer_certs : list certid; verified_chains : list (list certid) }.
+
+Record inj := { i_conn : option connstate;   (* r.TLS *)
+                i_field : option bs }.       (* r.Form["ssh_ca_password"][0] *)
+
+Definition i_tls (r : inj) : bool := is_some (i_conn r).                                   (* r.TLS != nil *)
+Definition i_chains (r : inj) : list (list certid) :=
+  match i_conn r with Some cs => verified_chains cs | None => [] end.
+Definition i_chain (r : inj) : bool := match i_chains r with [] => false | _ :: _ => true end.   (* len(r.TLS.VerifiedChains) >= 1 *)
+Definition i_leaf (r : inj) : option certid :=                                               (* r.TLS.VerifiedChains[0][0] *)
+  match i_chains r with (leaf :: _) :: _ => Some leaf | _ => None end.
+Definition i_presented (r : inj) : list certid :=
+  match i_conn r with Some cs => peer_certs cs | None => [] end.
+
+(* an empty first chain makes VerifiedChains[0][0] panic (index out of range); net/http recovers the
+   panic of a handler goroutine and closes the connection without an answer.  The harness marks a
+   recovered panic with this number. *)
+Definition code_panic : N := 599.
 
 Definition inject_with (unseal : cfg -> state -> bs -> state * bool) (c : cfg) (s : state) (r : inj) : state * N :=
   if negb (i_tls r) then (s, 500)
   else if negb (i_chain r) then (s, 403)
-  else match i_field r with
-       | None => (s, 400)
-       | Some p => let '(s', ok) := unseal c s p in (s', if ok then 200 else 400)
+  else match i_leaf r with
+       | None => (s, code_panic)
+       | Some _ =>
+           match i_field r with
+           | None => (s, 400)
+           | Some p => let '(s', ok) := unseal c s p in (s', if ok then 200 else 400)
+           end
        end.
 Definition inject : cfg -> state -> inj -> state * N := inject_with unseal_ca.
 Definition inject_old : cfg -> state -> inj -> state * N := inject_with unseal_ca_old.
+
+(* the request an operator sends: the admin certificate, verified against the admin CA by the handshake *)
+Definition admin_conn : connstate := {| peer_certs := [1]; verified_chains := [[1; 2]] |}.
+Definition admin_inj (field : option bs) : inj := {| i_conn := Some admin_conn; i_field := field |}.
+
+(* NOT the code — the variant the property excludes ("a presented certificate suffices"): the client
+   identity is the leaf of the first non-empty verified chain, and when there is none the first
+   certificate the peer presented. *)
+Definition client_cert_or_presented (cs : connstate) : option certid :=
+  match find (fun ch => match ch with [] => false | _ :: _ => true end) (verified_chains cs) with
+  | Some (leaf :: _) => Some leaf
+  | _ => match peer_certs cs with leaf :: _ => Some leaf | [] => None end
+  end.
+Definition inject_presented (c : cfg) (s : state) (r : inj) : state * N :=
+  match i_conn r with
+  | None => (s, 500)
+  | Some cs =>
+      match client_cert_or_presented cs with
+      | None => (s, 403)
+      | Some _ =>
+          match i_field r with
+          | None => (s, 400)
+          | Some p => let '(s', ok) := unseal_ca c s p in (s', if ok then 200 else 400)
+          end
+      end
+  end.
+
+(* ------------------------------------------------------------------ the listener in front of the handler *)
+(* crypto/tls, server side, as far as client certificates go (tls.Config.ClientAuth, Config.ClientCAs):
+   what the client sends, what the handshake does with it, what ConnectionState the handler gets.
+   A certificate is described by who issued it and whether it is inside its validity period; it
+   verifies iff its issuer is in the pool and it has not expired. *)
+Inductive clientauth := NoClientCert | RequestClientCert | RequireAnyClientCert | VerifyClientCertIfGiven | RequireAndVerifyClientCert.
+Record cert := { c_id : certid; c_issuer : certid; c_expired : bool }.
+Definition cert_verifies (pool : list certid) (x : cert) : bool := mem (c_issuer x) pool && negb (c_expired x).
+
+(* None = the handshake fails, nothing reaches any handler *)
+Definition handshake (policy : clientauth) (pool : list certid) (presented : option cert) : option connstate :=
+  let unverified := Some {| peer_certs := match presented with Some x => [c_id x] | None => [] end; verified_chains := [] |} in
+  let verified x := if cert_verifies pool x then Some {| peer_certs := [c_id x]; verified_chains := [[c_id x; c_issuer x]] |} else None in
+  match policy, presented with
+  | NoClientCert, _ => Some {| peer_certs := []; verified_chains := [] |}      (* no CertificateRequest is sent *)
+  | RequestClientCert, _ => unverified
+  | RequireAnyClientCert, None => None
+  | RequireAnyClientCert, Some _ => unverified
+  | VerifyClientCertIfGiven, None => unverified
+  | VerifyClientCertIfGiven, Some x => verified x
+  | RequireAndVerifyClientCert, None => None
+  | RequireAndVerifyClientCert, Some x => verified x
+  end.
+
+(* a request over a listener with this policy: (reached the handler?, state, status) *)
+Definition inject_over (policy : clientauth) (pool : list certid) (c : cfg) (s : state) (presented : option cert) (field : option bs)
+  : bool * state * N :=
+  match handshake policy pool presented with
+  | None => (false, s, 0)
+  | Some cs => let '(s', code) := inject c s {| i_conn := Some cs; i_field := field |} in (true, s', code)
+  end.
 
 Definition readyz (s : state) : N := if is_some (signer s) then 200 else 503.
 
@@ -436,3 +526,40 @@ Definition auto_case_violates (c : cfg) (handed : option bs) (ob : N * (bool * b
   let good := match handed with Some p => auto_good c p | None => false end in
   (sg && negb good) ||
   (negb sg && (e || role || negb (Nat.eqb nca 0) || negb (Nat.eqb rdy 0) || negb (Nat.eqb npub (length (extra_pubkeys c))) || negb (rz =? 503))).
+
+(* ------------------------------------------------------------------ the property's predicate on an observed injection (case file) *)
+(* c09_only_right_pass read on an observation: the server was sealed before the step and is unsealed after it.
+   The step violates the property if the connection record had no verified chain with a leaf, or if the
+   submitted field is not exactly the passphrase of the key file. *)
+Definition inj_verified (r : inj) : bool := i_tls r && i_chain r && is_some (i_leaf r).
+Definition inj_right_pass (c : cfg) (r : inj) : bool :=
+  match i_field r with Some p => bs_eqb p (right_pass c) | None => false end.
+
+(* walk the sequence with the OBSERVED signer flag: 1 = some step unsealed without a verified chain,
+   2 = some step unsealed with a verified chain but not the right passphrase, 0 = neither *)
+Fixpoint seq_violation (c : cfg) (sealed_before : bool) (ops : list inj)
+                       (obs : list (N * N * (bool * bool * nat * nat * nat * bool))) : N :=
+  match ops, obs with
+  | r :: ops', (_, _, (sg, _, _, _, _, _)) :: obs' =>
+      if sealed_before && sg && negb (inj_verified r) then 1
+      else if sealed_before && sg && negb (inj_right_pass c r) then 2
+      else seq_violation c (negb sg) ops' obs'
+  | _, _ => 0
+  end.
+
+(* a request over a real listener (policy, client CA pool, presented certificate): observed
+   (reached the handler, status, unsealed afterwards) against the model *)
+Definition over_case_ok (policy : clientauth) (pool : list certid) (c : cfg) (presented : option cert) (field : option bs)
+                        (ob : bool * N * bool) : bool :=
+  let '(reached, s', code) := inject_over policy pool c (sealed_init c) presented field in
+  let '(oreached, ocode, osigner) := ob in
+  Bool.eqb reached oreached && (code =? ocode) && Bool.eqb (is_some (signer s')) osigner.
+(* the property's predicate: unsealed although the presented certificate does not verify against the pool
+   (or none was presented, or the policy verifies nothing), or the field is not the passphrase *)
+Definition over_case_violates (policy : clientauth) (pool : list certid) (c : cfg) (presented : option cert) (field : option bs)
+                              (ob : bool * N * bool) : bool :=
+  let '(_, _, osigner) := ob in
+  let verifying := match policy with VerifyClientCertIfGiven | RequireAndVerifyClientCert => true | _ => false end in
+  let good_cert := match presented with Some x => cert_verifies pool x | None => false end in
+  let good_pass := match field with Some p => bs_eqb p (right_pass c) | None => false end in
+  osigner && negb (verifying && good_cert && good_pass).
